@@ -59,6 +59,8 @@ func c09(c *Ctx) (*report.Result, error) {
 	checkShardChangeAnnounced(c, res, "O9.12")
 	res.RuleDoc["O9.13"] = "the forward to the owning instance is attempted exactly when another instance owns the shard: in both Deliver*ToShardOwner functions the intra-proxy send is guarded by memberlistConfig != nil, a known owner, owner != this node and a known address, each on its positive side"
 	checkRemoteForwardCondition(c, res, "O9.13")
+	res.RuleDoc["O9.14"] = "the intra-proxy stream tables are maintained on every path: RegisterSender files the sender (and a peer state it creates) for every cross-cluster pair, UnregisterSender deletes that entry, ensureStream files the receiver it creates and starts it as a goroutine"
+	checkIntraStreamTables(c, res, "O9.14")
 	res.RuleDoc["O9.10"] = "no swallowed error in the files the mechanism lives in: no function returns a nil error on a path on which an error obtained from a call is known to be non-nil (io.EOF from a stream Recv, the normal end of a receive loop, is the one accepted idiom)"
 	checkNoSwallowedErrors(c, res, "O9.10", []string{"proxy/intra_proxy_router.go", "proxy/shard_manager.go"})
 	return res, nil
